@@ -30,6 +30,14 @@ def _progs():
         "passthrough_and_perm": (lambda x: (x, jnp.transpose(x, (0, 3, 1, 2))), [S]),
         "max_slice": (lambda x, y: jnp.maximum(x, y[:, :1]), [S, S]),
         "channel_softmax_head": (lambda x: jax.nn.softmax(jnp.tanh(x) * 2.0, axis=-1), [S]),
+        # one value observed twice: as a flagged and as a non-flagged output (and by a further consumer), so that a
+        # transpose fold across the producer changes the layout of the OTHER observer
+        "mean_keepdims_twice": (lambda x: (lambda m: (m, m))(jnp.mean(x, axis=(1, 2), keepdims=True)), [S]),
+        "mean_keepdims_observed_and_used": (lambda x: (lambda m: (m, m * 2.0 + 1.0))(jnp.mean(x, axis=(1, 2), keepdims=True)), [S]),
+        "sum_channel_keepdims_twice": (lambda x: (lambda m: (m, m, x))(jnp.sum(x, axis=3, keepdims=True)), [S]),
+        "max_keepdims_twice": (lambda x: (lambda m: (m, m))(jnp.max(x, axis=(1, 2), keepdims=True)), [S]),
+        "relu_twice": (lambda x: (lambda r: (r, r))(jax.nn.relu(x)), [S]),
+        "add_twice": (lambda x, y: (lambda r: (r, r, jnp.tanh(r)))(x + y), [S, S]),
         # symbolic H/W used as run-time VALUES: the dims must be read from the right axes of the NCHW-laid-out input
         "symbolic_hw_as_values": (lambda x: x * (x.shape[1] * 1.0) + x.shape[2] * 0.5 - x.shape[0] * 0.25, [("B", "H", "W", 3)]),
         "symbolic_reduce_norm": (lambda x: jnp.sum(x, axis=(1, 2)) / (x.shape[1] * x.shape[2]), [("B", "H", "W", 3)]),
